@@ -28,7 +28,8 @@ def run_one(d, tier, procs, inplace):
     else:
         tmp = tempfile.mkdtemp(prefix="pmsseed-", dir="/tmp")
         shutil.copytree("/repo/PyMatterSim", os.path.join(tmp, "PyMatterSim"), ignore=shutil.ignore_patterns("__pycache__"))
-        r = subprocess.run(["patch", "-p1", "-d", tmp, "-i", patch], capture_output=True, text=True)
+        # only the library sources are copied; hunks for docs/ or tests/ are irrelevant to the check
+        r = subprocess.run(["git", "apply", "--include=PyMatterSim/*", patch], cwd=tmp, capture_output=True, text=True)
         if r.returncode:
             shutil.rmtree(tmp, ignore_errors=True)
             return name, "PATCH-FAILED", r.stdout + r.stderr
